@@ -80,12 +80,13 @@ def main():
     extra = [p for p in ("./chain", "./consensus/...", "./mempool", "./syncer") if p.split("/")[1] in " ".join(touched) or True]
     # packages that build without package contract are tested natively (the patched zerolog of the
     # build kit changes two logging tests of package types); everything else through the build kit
-    native_env = "cd %s && GOFLAGS=-mod=mod GOPROXY=off GOSUMDB=off " % WT
+    native_env = "cd %s && GOFLAGS=-mod=mod GOPROXY=off GOSUMDB=off GOTOOLCHAIN=local " % WT
     ok_all, cmds = True, []
     for pkg in sorted(set(touched)):
         c = native_env + "go test -count=1 %s" % pkg
         r = sh(c)
-        if r.returncode != 0 and ("build failed" in (r.stdout + r.stderr) or "lualib" in (r.stdout + r.stderr) or "luajit" in (r.stdout + r.stderr).lower()):
+        if r.returncode != 0 and "--- FAIL" not in (r.stdout + r.stderr):
+            # does not build natively (package contract needs LuaJIT): use the build kit
             c = "%s %s -count=1 %s" % (BK, WT, pkg)
             r = sh(c)
         cmds.append(c)
